@@ -149,10 +149,11 @@ def generate_dispatch(ov, arganal):
     calls = []
     if spo or po:
         req = len(spr + pr)
+        npos = len(spr + spo + pr + po)
         for i, arg in enumerate(spo + po):
             call = call_template.format(
-                lookup=join(lookup[: req + i], trail=True),
-                posargs=join(posargs[: req + i + 1]),
+                lookup=join(lookup[: req + i] + lookup[npos:], trail=True),
+                posargs=join(posargs[: req + i + 1] + posargs[npos + 1 :]),
                 mvar=mv,
             )
             call = textwrap.indent(call, "        ")
